@@ -318,6 +318,8 @@ def positive(prog, fn, v, depth=0):
         nm = v.callee_name()
         if nm == 'max' and len(v.args) == 2 and prog.resolve(v) is None:
             return positive(prog, fn, v.args[0], depth + 1) or positive(prog, fn, v.args[1], depth + 1)
+        if nm == 'clamp' and len(v.args) == 3 and prog.resolve(v) is None:
+            return positive(prog, fn, v.args[1], depth + 1)          # clamp(x, lo, hi) >= lo
         if nm == 'capacity' and v.args and prog.resolve(v) is None:
             vf = vec_field_of(prog, v.args[0])
             if vf is None:
@@ -723,6 +725,49 @@ def table_key(mk, name, sg):
     return None
 
 
+def precondition_assert(prog, fn, c):
+    """None if the branch that guards this assertion failure passes exactly when expiration(key) >= time; else the reason"""
+    from evalrel import Evaluator
+    from rules.gate import edge_truth
+    b = fn.body
+    blk = c.point[0]
+    # the switch whose one side leads (only) to this panic
+    for s0, d0 in b.switch_discr.items():
+        succs = set(b.cfg.succ[s0])
+        dead = [x for x in succs if x not in b.cfg.can_return]
+        if not dead or not any(x == blk or blk in b.cfg.reachable_from(x) for x in dead):
+            continue
+        if not any(x.kind == 'call' and x.callee_name() == 'expiration' for x in walk(d0)):
+            return None         # an assertion about something else (a position, a link): not the precondition's business
+        calls = [x for x in walk(d0) if x.kind == 'call' and prog.classify(x) == 'callback' and prog.callback_kind(x) == 'compare' and len(x.args) == 2]
+        if len(calls) != 1:
+            return 'its condition is not one comparison of an expiration with the time (%s)' % show(strip(d0), 3)
+        cmpc = calls[0]
+        def is_exp(v):
+            return any(x.kind == 'call' and x.callee_name() == 'expiration' for x in walk(v))
+        e0, e1 = is_exp(cmpc.args[0]), is_exp(cmpc.args[1])
+        if e0 == e1:
+            return 'its condition does not compare an expiration with a time'
+        site = {'call': cmpc, 'stored_arg': 0 if e0 else 1, 'method': cmpc.callee_name()}
+        t = b.mir['blocks'][s0]['term']
+        passes = set()
+        for rel in ('<', '=', '>'):
+            val = Evaluator(prog, [site], rel).ev(strip(d0))
+            if val is None or isinstance(val, tuple):
+                return 'its condition cannot be evaluated (%s)' % show(strip(d0), 3)
+            iv = int(val) if isinstance(val, bool) else val
+            chosen = t['otherwise']
+            for tv, tb in t['targets']:
+                if tv == iv:
+                    chosen = tb
+            if chosen in b.cfg.can_return:
+                passes.add(rel)
+        if passes != {'=', '>'}:
+            return 'it passes when the expiration is %s the time; the contract allows exactly = and >' % '/'.join(sorted(passes))
+        return None
+    return None
+
+
 def classify_panic(prog, fn, mk, name, what, txt, c):
     if what == 'debug_assert':
         if mk == 'pool':
@@ -733,8 +778,13 @@ def classify_panic(prog, fn, mk, name, what, txt, c):
         if mk == 'heap':
             return 'exception', 'accepted: bucket numbers are below 32 for in-domain coordinates (C14, assumed)'
         if 'expiration' in txt or 'expired' in txt.lower() or fn.trait_method() == 'insert':
-            return 'exception', 'accepted: restates the C10 precondition expiration >= insertion time'
+            why_ = precondition_assert(prog, fn, c)
+            if why_:
+                return 'violation', 'the assertion does not restate the C10 precondition (expiration >= insertion time): ' + why_
+            return 'exception', 'accepted: restates the C10 precondition expiration >= insertion time (checked: the assertion passes exactly when expiration >= time)'
         return 'exception', 'accepted: restates the parent/child link consistency of a valid tree (C02, assumed); absent in release builds'
+    if what == 'assert' and name == 'new' and 'NIL_INDEX' in txt and '==' in txt:
+        what = 'assert_eq'          # the same check spelled assert!(a == b)
     if what == 'assert_eq' and name == 'new':
         return 'exception', 'accepted: ' + TABLE[('tree', 'new', 'panic(assert_eq nil_index NIL_INDEX)')]
     # panics that belong to an overflow / bounds Assert are counted at the arithmetic site
